@@ -6,6 +6,7 @@ import (
 	"go/token"
 	"go/types"
 	"math/big"
+	"os"
 	"sort"
 
 	"golang.org/x/tools/go/ssa"
@@ -21,9 +22,7 @@ const (
 	DefaultMaxPaths    = 20000 // paths per entry point
 	widenAfter         = 3     // visits of a data-dependent loop head before widening
 	initStepBudget     = 3_000_000
-	joinAfter          = 2 // join mode: loop-head visits explored as they are
-	joinWidenAfter     = 6 // join mode: visits before widening
-	joinResultsAbove   = 3 // join mode: a call with more results returns their join
+	joinWidenAfter     = 4 // join mode: updates of a loop head before widening
 )
 
 // Analyzer interprets functions of one loaded configuration.
@@ -151,7 +150,9 @@ type frame struct {
 	loops map[*ssa.BasicBlock]*loopRec
 	info  *fnInfo
 
-	sharedLoops bool
+	// join mode (joinrun.go): env holds every value at its definition,
+	// over the refinements that hold in the block being executed
+	over map[ssa.Value]Value
 }
 
 type result struct {
@@ -162,7 +163,6 @@ type result struct {
 type snapshot struct {
 	phis []Value
 	mem  *Memory
-	env  map[ssa.Value]Value // join mode: values defined outside the loop
 }
 
 type loopRec struct {
@@ -172,6 +172,7 @@ type loopRec struct {
 }
 
 type fnInfo struct {
+	rpo   map[*ssa.BasicBlock]int
 	heads map[*ssa.BasicBlock]bool
 	body  map[*ssa.BasicBlock]map[*ssa.BasicBlock]bool // loop head -> blocks of its natural loop
 }
@@ -213,10 +214,6 @@ func (fr *frame) clone() *frame {
 	for k, v := range fr.env {
 		env[k] = v
 	}
-	if fr.sharedLoops {
-		// join mode: all paths of one activation share the explored states
-		return &frame{fn: fr.fn, env: env, ctx: fr.ctx, depth: fr.depth, loops: fr.loops, info: fr.info, sharedLoops: true}
-	}
 	loops := make(map[*ssa.BasicBlock]*loopRec, len(fr.loops))
 	for k, v := range fr.loops {
 		c := *v
@@ -243,6 +240,11 @@ func (a *Analyzer) val(fr *frame, v ssa.Value) Value {
 	case *ssa.Const:
 		return a.constValue(v)
 	case *ssa.Global:
+		if a.heap != nil {
+			// Stage B: package-level variables are by-type memory (their
+			// initialisers are analysed as entry points)
+			return untrackedPtr()
+		}
 		if v.Pkg != nil && load.IsModule(v.Pkg.Pkg) {
 			a.ensureInit(v.Pkg)
 		}
@@ -255,6 +257,11 @@ func (a *Analyzer) val(fr *frame, v ssa.Value) Value {
 		return &Fn{F: v}
 	case *ssa.Builtin:
 		return opaque("builtin")
+	}
+	if fr.over != nil {
+		if x, ok := fr.over[v]; ok && x != nil {
+			return x
+		}
 	}
 	if x, ok := fr.env[v]; ok && x != nil {
 		return x
@@ -296,7 +303,7 @@ func (a *Analyzer) constValue(c *ssa.Const) Value {
 // path that returns normally.
 func (a *Analyzer) callFn(fn *ssa.Function, args, bind []Value, mem *Memory, ctx string, depth int) []result {
 	fr := &frame{fn: fn, env: make(map[ssa.Value]Value, 64), ctx: ctx, depth: depth,
-		loops: map[*ssa.BasicBlock]*loopRec{}, info: a.infoOf(fn), sharedLoops: a.JoinLoops}
+		loops: map[*ssa.BasicBlock]*loopRec{}, info: a.infoOf(fn)}
 	for i, p := range fn.Params {
 		if i < len(args) {
 			fr.env[p] = args[i]
@@ -307,16 +314,10 @@ func (a *Analyzer) callFn(fn *ssa.Function, args, bind []Value, mem *Memory, ctx
 			fr.env[fv] = bind[i]
 		}
 	}
-	rs := a.run(fr, fn.Blocks[0], nil, 0, mem)
-	if a.JoinLoops && len(rs) > joinResultsAbove {
-		// join mode: one joined result per call keeps the analysis polynomial
-		j := rs[0]
-		for _, r := range rs[1:] {
-			j = result{joinMemory(j.mem, r.mem), joinValues(j.ret, r.ret)}
-		}
-		return []result{j}
+	if a.JoinLoops {
+		return a.runJoin(fr, mem)
 	}
-	return rs
+	return a.run(fr, fn.Blocks[0], nil, 0, mem)
 }
 
 // run executes from instruction idx of block b (entered from pred when
@@ -449,11 +450,7 @@ func (a *Analyzer) enterBlock(fr *frame, b, pred *ssa.BasicBlock, mem *Memory) b
 			}
 		}
 	}
-	if fr.info.heads[b] && a.JoinLoops {
-		if !a.enterLoopJoin(fr, b, vals, mem) {
-			return false
-		}
-	} else if fr.info.heads[b] {
+	if fr.info.heads[b] {
 		rec := fr.loops[b]
 		if rec == nil {
 			rec = &loopRec{}
@@ -492,81 +489,32 @@ func (a *Analyzer) enterBlock(fr *frame, b, pred *ssa.BasicBlock, mem *Memory) b
 
 var widenLimit = Itv{new(big.Int).Neg(pow2(63)), pow2m1(64)}
 
-// enterLoopJoin is the loop discipline of join mode (Stage B).  The whole
-// state at the loop head (phis, memory, and the values of this activation
-// defined outside the loop) is compared with the states already explored
-// from this head by any path of the activation; a covered state is pruned.
-// After joinAfter explored states the new state is joined with the last
-// explored one (and widened later on), so the chain of explored states is
-// increasing and finite.
-func (a *Analyzer) enterLoopJoin(fr *frame, b *ssa.BasicBlock, vals []Value, mem *Memory) bool {
-	rec := fr.loops[b]
-	if rec == nil {
-		rec = &loopRec{}
-		fr.loops[b] = rec
-	}
-	body := fr.info.body[b]
-	outside := make(map[ssa.Value]Value, len(fr.env))
-	for v, x := range fr.env {
-		if in, ok := v.(ssa.Instruction); ok && in.Block() != nil && body[in.Block()] {
-			continue // defined inside the loop: dead at the head
-		}
-		outside[v] = x
-	}
-	covered := func(s snapshot) bool {
-		if !leqSnapshot(vals, mem, s) {
-			return false
-		}
-		for v, x := range outside {
-			if y, ok := s.env[v]; ok && !leqValue(x, y) {
-				return false
+var traceLoops = os.Getenv("VOI_ERANGE_TRACE") != ""
+
+func debugValue(v Value) string {
+	switch x := v.(type) {
+	case *Int:
+		return x.Itv.String()
+	case *Ptr:
+		return fmt.Sprintf("&obj%d%v~%s", x.Obj, x.Path, x.Sum)
+	case *Slice:
+		return fmt.Sprintf("slice{arr=%v off=%s len=%s}", x.Arr, x.Off, x.Len)
+	case *Agg:
+		s := fmt.Sprintf("agg[%d]{", len(x.Elems))
+		for i, e := range x.Elems {
+			if i > 3 {
+				s += "..."
+				break
 			}
+			s += debugValue(e) + ","
 		}
-		return true
+		return s + "}"
+	case *Opaque:
+		return "opaque(" + x.Why + ")"
+	case nil:
+		return "nil"
 	}
-	for _, s := range rec.seen {
-		if covered(s) {
-			return false
-		}
-	}
-	rec.visits++
-	if rec.visits > a.UnrollLimit {
-		a.undecide(b.Instrs[0], "loop head visited more than %d times without reaching a covered state", a.UnrollLimit)
-		return false
-	}
-	if len(rec.seen) >= joinAfter {
-		prev := rec.seen[len(rec.seen)-1]
-		widen := rec.visits > joinWidenAfter
-		merge := func(old, cur Value) Value {
-			j := joinValues(old, cur)
-			if widen {
-				j = widenValue(old, j, widenLimit)
-			}
-			return j
-		}
-		for i := range vals {
-			vals[i] = merge(prev.phis[i], vals[i])
-		}
-		for k, old := range prev.mem.cells {
-			if cur, ok := mem.root(k); ok {
-				mem.cells[k] = merge(old, cur)
-			} else {
-				mem.cells[k] = old
-			}
-		}
-		for k := range prev.mem.shared {
-			mem.shared[k] = true
-		}
-		for v, old := range prev.env {
-			if cur, ok := outside[v]; ok {
-				m := merge(old, cur)
-				outside[v] = m
-				fr.env[v] = m
-			}
-		}
-	}
-	rec.seen = append(rec.seen, snapshot{phis: append([]Value(nil), vals...), mem: mem.clone(), env: outside})
-	return true
+	return v.kind()
 }
 
 func leqSnapshot(vals []Value, mem *Memory, s snapshot) bool {
@@ -617,8 +565,18 @@ func (a *Analyzer) refine(fr *frame, cond ssa.Value, truth bool) bool {
 		}
 		x, okx := a.val(fr, c.X).(*Int)
 		y, oky := a.val(fr, c.Y).(*Int)
-		if !okx || !oky || x.wrapped() || y.wrapped() {
+		if !okx || !oky {
 			return true
+		}
+		// the comparison saw the machine words: a wrapped operand is any
+		// word of its type
+		if ii, ok := intInfoOf(c.X.Type(), a.sizes); ok {
+			if x.wrapped() || !x.Itv.Leq(ii.rng()) {
+				x = mkInt(ii.rng())
+			}
+			if y.wrapped() || !y.Itv.Leq(ii.rng()) {
+				y = mkInt(ii.rng())
+			}
 		}
 		xi, yi, feasible := refineCmp(op, x.Itv, y.Itv)
 		if !feasible {
@@ -629,26 +587,38 @@ func (a *Analyzer) refine(fr *frame, cond ssa.Value, truth bool) bool {
 	}
 	if _, isConst := cond.(*ssa.Const); !isConst {
 		if truth {
-			fr.env[cond] = constInt(1)
+			fr.bind(cond, constInt(1))
 		} else {
-			fr.env[cond] = constInt(0)
+			fr.bind(cond, constInt(0))
 		}
 	}
 	return true
+}
+
+// bind records a refinement of v: path-private in path mode, valid for the
+// current block state in join mode.
+func (fr *frame) bind(v ssa.Value, x Value) {
+	if fr.over != nil {
+		fr.over[v] = x
+		return
+	}
+	fr.env[v] = x
 }
 
 func (a *Analyzer) rebind(fr *frame, v ssa.Value, old *Int, i Itv) {
 	if _, isConst := v.(*ssa.Const); isConst || i.Eq(old.Itv) {
 		return
 	}
-	fr.env[v] = &Int{Itv: i, Tag: old.Tag}
+	fr.bind(v, &Int{Itv: i, Tag: old.Tag})
 	// len(s) refined: refine the slice value as well
 	if call, ok := v.(*ssa.Call); ok {
 		if bi, ok := call.Call.Value.(*ssa.Builtin); ok && bi.Name() == "len" && len(call.Call.Args) == 1 {
 			arg := call.Call.Args[0]
-			if s, ok := fr.env[arg].(*Slice); ok {
-				if l, ok := s.Len.Meet(i); ok {
-					fr.env[arg] = &Slice{Arr: s.Arr, Off: s.Off, Len: l}
+			if _, isConst := arg.(*ssa.Const); !isConst {
+				if s, ok := a.val(fr, arg).(*Slice); ok {
+					if l, ok := s.Len.Meet(i); ok {
+						fr.bind(arg, &Slice{Arr: s.Arr, Off: s.Off, Len: l, Sum: s.Sum})
+					}
 				}
 			}
 		}
